@@ -285,6 +285,9 @@ def plan(tier, seed):
                for i in range(len(model.big_shapes()))]
     chunks.append({'kind': 'cli'})
     chunks.append({'kind': 'clipipe'})
+    n6 = len(sweep.base_shapes(6, tier == 'quick', None))
+    step = 25 if tier == 'quick' else 86
+    chunks += [{'kind': 'punct6', 'lo': lo, 'hi': min(n6, lo + step), 'cont': tier == 'quick'} for lo in range(0, n6, step)]
     return {
         'chunks': chunks,
         'rule': 'initial states: every hierarchy over n tokens (<= u unary insertions) x every word assignment '
@@ -301,6 +304,7 @@ def plan(tier, seed):
                        'unexplored successors (every path to them is an implementation trace)',
         'assumptions': ['driver differential (vt/clipipe.py): four structural pipelines with --params, with and without --split, must write what the named functions give when applied by the harness in the given order',
                         'beyond the bound: BFS (depth %d / %d) also from 8 fixed 5-7-token hierarchies with three blocks or interleaved gaps and from the 11-13-token size probes' % ((3, 2) if tier == 'quick' else (4, 3)),
+                        'punctuation probes: every %s hierarchy over 6 tokens x every choice of 4 punctuation positions x words from {\", (}: root_attach, then each of the three punctuation re-attachments, step invariants on each (single steps, no BFS)' % ('continuous' if tier == 'quick' else ''),
                         'canonical form is a sound state abstraction (DESIGN.md §3.4)',
                         'live paths: every state is also reached on LIVE objects along the path by which it was first discovered (no rebuild between steps; initial objects rotate over API-built / reversed child lists / export reader / TIGER-XML reader / written once by the export writer) and the step invariants are evaluated on every live transition - one live transition per state, counted in extra.live_transitions',
                         'head marks count as present only if no restructuring happened since (prerequisite reading)',
@@ -410,6 +414,53 @@ def explore(inits, depth, res, skip_ops=()):
     res.states += len(seen)
     if sample:
         res.sample(sample)
+
+
+def punct6_cases(chunk):
+    for sh in sweep.base_shapes(6, chunk.get('cont', False), None)[chunk['lo']:chunk['hi']]:
+        root = model.decorate(sh, lambda p, s: LABELS[(sum(p) + len(p)) % len(LABELS)], lambda p, s: 'HD' if p[-1] == 0 else '--')
+        for pos4 in itertools.combinations(range(6), 4):
+            for ws in itertools.product(['"', '('], repeat=4):
+                words = ['w'] * 6
+                for i, w in zip(pos4, ws):
+                    words[i] = w
+                yield model.MT(1, model.mk_tokens(6, words=words, pos=[POS[i % len(POS)] for i in range(6)]), root)
+
+
+def run_punct6(chunk, res):
+    for mt in punct6_cases(chunk):
+        res.evals += 1
+        res.nontrivial += 1
+        t0 = build(mt)
+        pre0 = pre_summary(t0)
+        outcome = []
+        try:
+            ra = transform.root_attach(t0)
+            probs = check_step(pre0, 'root_attach', ra)
+            res.transitions += 1
+        except Exception as e:
+            probs = [('exception', '%s: %s' % (type(e).__name__, e))]
+        prog = ['root_attach']
+        if not probs:
+            c = canon(ra)
+            pre = pre_summary(uncanon(c))
+            for op in ('punctuation_verylow', 'punctuation_symetrify', 'punctuation_symetrify_relc', 'punctuation_root'):
+                fname, params = OPS[op]
+                res.transitions += 1
+                try:
+                    r = getattr(transform, fname)(uncanon(c), **params)
+                    probs = check_step(pre, op, r)
+                    outcome.append(hash(canon(r)) if not probs else None)
+                except Exception as e:
+                    probs = [('exception', '%s: %s' % (type(e).__name__, e))]
+                if probs:
+                    prog = ['root_attach', op]
+                    break
+        for kind, detail in probs:
+            res.violation(kind, prog[-1], {'init': mt.to_json(), 'program': prog, 'flags': []},
+                          '%s after program %s from %s' % (detail, prog, model.mt_str(mt.root, mt.toks)), '%s: %s' % (prog[-1], kind))
+        res.outcome(tuple(outcome))
+    res.states += 1
 
 
 def repr_state(c):
@@ -578,6 +629,10 @@ def run_chunk(chunk):
                         res.violation(v['kind'], v['where'], v['case'], v['detail'], v['what'])
         res.states += 1
         res.sample({'cli': 'treetools transform SRC DEST --trans %s [--split 1#_rest]' % ' '.join(CLI_PROGRAMS[0])})
+        return res
+    if chunk.get('kind') == 'punct6':
+        with quiet():
+            run_punct6(chunk, res)
         return res
     with quiet():
         if chunk.get('kind') == 'probe':
